@@ -245,6 +245,7 @@ def run(ctx):
                 "subset is repeated on the suppress_key_warnings build. distinct_nontrivial counts distinct (number of "
                 "locales, inherits graph by role, presence pattern of the key) where an inheriting locale does not define "
                 "the key" % (4 if ctx.quick else 5),
+        "directed_rule": "Then directed projects: every pair of values of the quantifier's dimensions (evidence field `pairwise`) that the above left empty and that is feasible is filled by a project built for it (checks/cov_merge.py), run on both builds.",
         "samples": [{"project": m["project"], "impl": m["impl"]["raw"][:600]} for m in metas[:2] + metas[-2:]],
         "traces_validated_against_impl": len(metas), "disagreements": len(dis), "spec_failures_on_impl": len(bad),
         "skipped_outside_model": len(skipped), "panics": len(panics), "error_results": sum(1 for m in metas if m["impl"].get("kind") not in ("ok", "panic")),
